@@ -8,9 +8,10 @@ R1  `__eq__` of Individual (and of every subclass that overrides it) is solved
     iff every letter is Z.  The iteration domain must be exactly
     [0, len(vector)) (affine check of the range bounds).
 R2  symmetry follows from R1 (P and N are both required to give False).
-R3  `__hash__` is defined next to `__eq__` and is a function of `self.vector`
-    only (an id, counter or cost in the hash makes equal vectors hash
-    differently).
+R3  `__hash__` is defined next to `__eq__` and is a function of the values in
+    `self.vector` only (an id, counter or cost in the hash makes equal
+    vectors hash differently; so does the text or byte image of the vector,
+    which tells 0.0 from -0.0 and 1 from 1.0).
 R4  tolerance literals compared against lie in (0, 1e-10].
 R5  (evidence) call sites that rely on the relation.
 """
@@ -222,6 +223,8 @@ def check_eq(ctx, mod, cname, fn):
     wv = whole_vector_form(fn, client)
     if wv is not None:
         ctx.holds("R1", construct, where(mod, fn), wv[1])
+        ctx.holds("R2", construct, where(mod, fn), "sequence equality is symmetric")
+        ctx.holds("R4", construct, where(mod, fn), "no tolerance: coordinates are compared exactly")
         return
     # fixed-coordinate dependence without any coordinate loop
     loops = [n for n in ast.walk(fn) if isinstance(n, ast.For)]
@@ -316,6 +319,13 @@ def check_eq(ctx, mod, cname, fn):
                      "tolerance %r outside (0, 1e-10]: designs further apart than 1e-10 would be merged" % tol_bad[0][1])
     elif tols:
         ctx.holds("R4", construct, where(mod, fn), "tolerance literals %r within (0, 1e-10]" % tols)
+    elif client.isclose and all(rel == 0 and 0 <= ab <= 1e-10 for _n, rel, ab in client.isclose):
+        ctx.holds("R4", construct, where(mod, fn), "isclose with no relative and an absolute tolerance within [0, 1e-10]")
+    elif not client.isclose:
+        ctx.holds("R4", construct, where(mod, fn), "no tolerance literal: coordinates are compared exactly")
+
+
+REPRESENTATION = ("str", "repr", "format", "ascii", "bytes", "json.dumps", "pickle.dumps")
 
 
 def check_hash(ctx, mod, cls, cname):
@@ -349,7 +359,15 @@ def check_hash(ctx, mod, cls, cname):
             ctx.violated("R3", construct, where(mod, r),
                          "hash depends on %s, not only on the coordinates: identical vectors can hash differently" % sorted(others or paths))
             ok = False
-        elif any(c in ("id", "random.random", "random", "time.time", "object.__hash__", "super") or c is None for c in calls if c not in ("hash", "tuple", "str", "repr", "frozenset", "round", "list", "map", "float", "int", "sum")):
+        elif [c for c in calls if c in REPRESENTATION or (c or "").split(".")[-1] in ("tobytes", "tostring", "dumps", "format")] \
+                or any(isinstance(n_, ast.JoinedStr) for n_ in ast.walk(r.value)):
+            # the text / byte image of a number is not a function of its value: 0.0 and -0.0, 1 and 1.0, a float and the numpy
+            # scalar of the same value compare equal coordinate by coordinate and print differently
+            rep = [c for c in calls if c in REPRESENTATION or (c or "").split(".")[-1] in ("tobytes", "tostring", "dumps", "format")] or ["an f-string"]
+            ctx.violated("R3", construct, where(mod, r), "the hash is taken of the textual / byte image of the vector (%s), which depends on how a coordinate is represented and not "
+                         "only on its value: 0.0 and -0.0 (or 1 and 1.0) give equal points with different hashes, so a set keeps both" % ", ".join(rep))
+            ok = False
+        elif any(c in ("id", "random.random", "random", "time.time", "object.__hash__", "super") or c is None for c in calls if c not in ("hash", "tuple", "frozenset", "round", "list", "map", "float", "int", "sum")):
             ctx.violated("R3", construct, where(mod, r), "hash uses %s which is not a function of the coordinates" % calls)
             ok = False
         elif not paths:
